@@ -634,7 +634,7 @@ func c03Mutations(w *W) {
 	})
 	herePairs(w, false)
 	// substitutions with ill-formed content at the word positions of a few host sentences
-	for _, bad := range []string{"`a |`", "$(a |)", "`!`", "$( ; )", "\"`a |`\"", "$(a `b |`)", "$((`;`))", "${v:-`a |`}"} {
+	for _, bad := range []string{"`a |`", "$(a |)", "`!`", "$( ; )", "\"`a |`\"", "$(a `b |`)", "$((`;`))", "${v:-`a |`}", "<<-K", "<<K", "<<-'K'"} {
 		for _, t := range [][]string{{bad}, {"a", bad}, {"a", bad, ";", "a"}, {"x=1", bad}, {"a", ">", bad}, {"if", bad, ";", "then", "a", ";", "fi"}, {"a", "<<E", bad}, {"a", "|", bad}, {"{", "a", bad, ";", "}"}} {
 			if !w.Mine() {
 				continue
